@@ -50,6 +50,12 @@ NextCipherSuite:
 			if suite.id != suiteId {
 				continue
 			}
+			if suite.flags&suiteECDHE != 0 {
+				// the client side of the GMSSL ECDHE key exchange cannot be completed
+				// (ecdheKeyAgreementGM.processServerKeyExchange refuses every curve):
+				// offering such a suite only lets a server select it and fail
+				continue NextCipherSuite
+			}
 			hello.cipherSuites = append(hello.cipherSuites, suiteId)
 			continue NextCipherSuite
 		}
